@@ -252,10 +252,37 @@ def run(ctx):
             dominated_by(ctx, 'C10.CN', clp, e, lambda x: x['k'] == 'call' and x.get('name') == 'CanonicalizePath'
                          and any(mentions_var(x.get('args'), n) for n in v),
                          'msvc includes are canonicalised before being collected', 'CLParser:insert-uncanonical')
+    # canonicalisation rewrites the bytes in place and shortens the length through an out-parameter:
+    # the length must belong to the object that is used afterwards, not to a by-value copy of it
+    ncp = 0
+    for f2 in prog.functions.values():
+        if f2.file.startswith('third_party'):
+            continue
+        for e2 in f2.calls('CanonicalizePath'):
+            if len(e2.get('args') or []) != 3:
+                continue
+            ncp += 1
+            la = strip(e2['args'][1])
+            base = None
+            if isinstance(la, dict) and la.get('k') == 'un' and la.get('op') == '&':
+                m = strip(la['e'])
+                if isinstance(m, dict) and m.get('k') == 'mem':
+                    b = strip(m.get('b'))
+                    if isinstance(b, dict) and b.get('k') == 'var' and b.get('vk') == 'local' and not m.get('arrow'):
+                        base = b['n']
+            copy = False
+            if base:
+                for d2 in f2.events('decl'):
+                    ty = d2.get('ty') or ''
+                    if d2['n'] == base and d2.get('init') is not None and '&' not in ty and '*' not in ty and 'iterator' not in ty and \
+                            any(x.get('k') == 'var' and str(x.get('n', '')).startswith('__begin') for x in walk(d2['init'])):
+                        copy = True
+            ctx.check('C10.CN', not copy, f2.name, 'canonicalize:length-of-a-copy', f2.where(e2),
+                      'the canonical length is stored into the object itself (`%s`), not into a by-value loop copy' % dstr(la)[:50])
     ldf_calls = [e for e in ldf.calls('CanonicalizePath')]
     ctx.check('C10.CN', len(ldf_calls) >= 1, ldf.name, 'LoadDepFile:primary-out-canon', ldf.loc,
               'the depfile\'s primary output is canonicalised before it is compared with the edge\'s output')
-    ctx.floor('C10.CN', 4)
+    ctx.floor('C10.CN', 8)
 
 
 def _res(f, d):
